@@ -169,12 +169,14 @@ fn budget(prop: &str, tier: &str, seed: u64, scale: f64) -> Budget {
             sweeps.push(sweeps::c03_edge_pairs(seed, if small { 10 } else { 255 }));
             if !quick && checked {
                 sweeps.push(sweeps::c03_sq10_weight2(seed));
+                sweeps.push(sweeps::c03_k7_full_capacity(seed));
             }
         }
         "C09" => {
             random_runs = r(800_000, 300_000, 24_000_000, 12_000_000);
             if checked && !quick {
                 sweeps.push(sweeps::c09_sq10_weight3(seed));
+                sweeps.push(sweeps::c09_k7_weight4(seed));
             }
         }
         "C05" => {
